@@ -27,13 +27,14 @@ def generate(rng, tier, shard, nshards):
         G, _ = cfg_proj(g)
         base = {"sr": srn, "G": G, "names": names}
         if gi % 3 == 1:
-            base["pre"] = [rng.choice(["agenda", "treesum", "naive", "agenda_maxiter", "trim", "cnf"]) for _ in range(rng.randint(1, 2))]
+            base["pre"] = [rng.choice(["agenda", "treesum", "naive", "agenda_maxiter", "treesum_maxiter", "trim", "cnf"]) for _ in range(rng.randint(1, 2))]
             feat = feat + "+history"
         elif gi % 3 == 2 and len(G["rules"]) >= 2:
             base["late"] = rng.randint(1, len(G["rules"]) - 1)      # rules added after a first evaluation
             feat = feat + "+rules-added-after-evaluation"
         yield gops.event("treesum", dict(base, how="agenda"), site="agenda", feat=feat)
         yield gops.event("treesum", dict(base, how="naive"), site="naive_bottom_up", feat=feat)
+        yield gops.event("treesum", dict(base, how="treesum", twice=(gi % 2 == 0)), site="treesum", feat=feat)
         if srn == "Rat":
             yield gops.event("explen", {k: v for k, v in base.items() if k not in ("pre", "late")}, site="expected_length", feat=feat)
     if shard == 0:
@@ -113,11 +114,12 @@ def selftests(events, rng):
         v = c["chart"][0][1]
         c["chart"][0][1] = (0 if v else 1) if isinstance(v, int) else [v[0] + 1, v[1]]
         out.append(c)
-    cands = [e for e in events if "exc" not in e and e["op"] == "explen"]
+    cands = [e for e in events if "exc" not in e and e["op"] in ("explen", "treesum1")]
     for e in cands[:4]:
         c = copy.deepcopy(e)
         c["expect"] = "reject"
-        c["res"] = [c["res"][0] + 1, c["res"][1]]
+        from check import corrupt_value
+        c["res"] = corrupt_value(c["res"])
         out.append(c)
     return out
 
